@@ -153,3 +153,11 @@ def all_cfgs(nv, Sigma, nrules, max_rhs):
     allrules = [(v, r) for v in V for r in rhss]
     for rs in itertools.combinations(allrules, nrules):
         yield mk_cfg(list(rs), S='S', V=V, Sigma=Sigma)
+
+
+def nfa_as_pda(N):
+    """the NFA N as a PDA that never touches its stack (same language; nondeterministic fan-out preserved)"""
+    delta = defaultdict(set)
+    for (q, a), T in N.delta.items():
+        for t in T: delta[q, (N.epsilon if a == N.epsilon else a), N.epsilon].add((t, N.epsilon))
+    return PDA(set(N.Q), set(N.Sigma), {'x'}, delta, N.q0, set(N.F), N.epsilon)
